@@ -423,6 +423,8 @@ func runC10(p *core.Program, r *core.Report) {
 	// R13: value literals of instantiated generic types carry the type's name with every nested type argument rewritten
 	// to its import name (C15.R4: the walk over the arguments visits every node and handles each exactly once)
 	chainRules(p, r, "R13", "C15", []string{"C15.R4"}, "nested type arguments are all visited and rewritten to their import names")
+	// round 8: the imports a literal registered are the ones its text uses
+	chainRules(p, r, "R16", "C03", []string{"C03.R12"}, "the text of every registering call ends up in the literal")
 	c10R14(p, r, f, armOf)
 }
 
